@@ -5,7 +5,7 @@ from picosvg.svg import SVG
 from common import *
 import docgen, pico
 
-COQ_TARGETS = ['props/C01.vo']
+COQ_TARGETS = ['props/C01.vo', 'proofs/E3_letters.vo']    # the path-data letter clause (converted_letters) is stated in props/C09.v
 ALWAYS_JUDGE = True
 RULE = ("(a) checkpicosvg(allow_text, drop_unsupported) on random element trees over svg/defs/g/path/gradients/stop/rect/text/tspan/"
         "textPath/foreign tags with ids: emptiness of the violation list and the pruned tree = model gate; (b) topicosvg (library) and the "
